@@ -2,6 +2,11 @@
 
 Store: constant values of locals (ints/bools, unit enum variants) assigned from constants or
 copied from tracked locals. Locals whose address is taken mutably are never tracked.
+Structured values: an aggregate of a tracked ADT (Result / Option / Poll / ControlFlow and the crate's own structs and
+enums) is the value ("v", adt, variant, index, components); components are constants, nested values, client values
+(`agg_value`) or ("t", provenance term of the operand at the construction site). They travel with moves, are taken
+apart by field / downcast projections, decide `discriminant`, `is_err`-style predicates and `Try::branch`, so that a
+Result built on one path of an (inlined) helper and tested by its caller keeps the two paths apart.
 Flags: sticky labels attached to CFG edges by a caller-supplied labelling (outcome of a hook,
 consumption of a control signal, ...). Counters: saturating (0,1,2) per event name.
 The state space is finite; exploration is a plain worklist search (no solver, no execution).
@@ -24,6 +29,7 @@ class AbsInt:
         self.edge_filter = edge_filter
         self.on_call = on_call
         self.agg_value = agg_value
+        self.track_values = True
         self.reset_at = set(reset_at)
         self.reset_prefixes = tuple(reset_prefixes)
         self.reset_counters = set(reset_counters)
@@ -43,13 +49,47 @@ class AbsInt:
         self._labels_cache = {}
 
     # ---- values --------------------------------------------------------------------------
+    STD_V = {"Ok": 0, "Err": 1, "None": 0, "Some": 1, "Ready": 0, "Pending": 1, "Continue": 0, "Break": 1}
+    STD_ADTS = ("std::result::Result", "std::option::Option", "std::task::Poll", "std::ops::ControlFlow")
+
+    def _project(self, v, proj):
+        proj = list(proj)
+        while proj and v is not None:
+            e = proj.pop(0)
+            if e == "*":
+                v = v[1] if v[0] == "ref" else None
+            elif isinstance(e, dict) and "v" in e:
+                if v[0] == "v" and (e.get("name") == v[2] or e.get("v") == v[3]):
+                    continue
+                v = None
+            elif isinstance(e, int):
+                v = v[4][e] if v[0] == "v" and e < len(v[4]) else None
+            else:
+                v = None
+        return v
+
     def _eval_operand(self, op, store):
         c = const_int(op)
         if c is not None:
             return ("c", c)
         pl = op.get("copy") or op.get("move")
-        if pl is not None and not pl["p"]:
-            return store.get(pl["l"])
+        if pl is not None:
+            v = store.get(pl["l"])
+            if not pl["p"] or v is None:
+                return v if not pl["p"] else None
+            return self._project(v, pl["p"])
+        return None
+
+    def _variant_index(self, v):
+        if v[0] == "v":
+            return v[3]
+        if v[0] == "e":
+            if v[1] in self.STD_ADTS:
+                return self.STD_V.get(v[2])
+            a = self.body.f.adts.get(v[1])
+            if a:
+                names = [x["name"] for x in a["variants"]]
+                return names.index(v[2]) if v[2] in names else None
         return None
 
     def _eval_rvalue(self, rv, store):
@@ -63,6 +103,55 @@ class AbsInt:
             v = self._eval_operand(rv["a"], store)
             if v and v[0] == "c" and v[1] in (0, 1):
                 return ("c", 1 - v[1])
+        if self.track_values:
+            if "ref" in rv and not rv.get("mut"):
+                v = store.get(rv["ref"]["l"])
+                v = self._project(v, rv["ref"]["p"]) if v is not None and rv["ref"]["p"] else v
+                return ("ref", v) if v is not None else None
+            if "discr" in rv and isinstance(rv["discr"], dict) and "l" in rv["discr"]:
+                v = store.get(rv["discr"]["l"])
+                v = self._project(v, rv["discr"]["p"]) if v is not None and rv["discr"]["p"] else v
+                if v is not None and v[0] in ("v", "e"):
+                    i = self._variant_index(v)
+                    return ("c", i) if i is not None else None
+        return None
+
+    def _struct_value(self, bb, rv, store):
+        """("v", adt, variant, index, components) for aggregates of tracked ADTs."""
+        if rv.get("agg") != "adt" or not rv["ops"]:
+            return None
+        adt = rv["adt"]
+        if adt not in self.STD_ADTS and adt not in self.body.f.adts:
+            return None
+        comps = []
+        for op in rv["ops"]:
+            v = self._eval_operand(op, store)
+            if v is None:
+                v = ("t", self.tr.norm(self.tr.operand(op)))
+            comps.append(v)
+        return ("v", adt, rv["variant"], rv.get("vidx", 0), tuple(comps))
+
+    def _call_value(self, t, store):
+        """Result of the std predicates / `?` plumbing on a structured value."""
+        fn = t.get("fn") or {}
+        nm = fn.get("name")
+        a0 = self._eval_operand(t["args"][0], store) if t["args"] else None
+        if a0 is None:
+            return None
+        x = a0[1] if a0[0] == "ref" else a0
+        if x is None:
+            return None
+        tag = x[2] if x[0] in ("v", "e") else None
+        if nm in ("is_err", "is_ok", "is_some", "is_none") and tag in self.STD_V:
+            want = {"is_err": "Err", "is_ok": "Ok", "is_some": "Some", "is_none": "None"}[nm]
+            return ("c", 1 if tag == want else 0)
+        if nm == "branch" and a0[0] in ("v", "e") and tag in ("Ok", "Some", "Err", "None"):
+            payload = a0[4] if a0[0] == "v" else ()
+            if tag in ("Ok", "Some"):
+                return ("v", "std::ops::ControlFlow", "Continue", 0, payload)
+            return ("v", "std::ops::ControlFlow", "Break", 1, (a0,))
+        if nm == "from_residual" and a0[0] in ("v", "e") and tag in ("Err", "None"):
+            return a0
         return None
 
     def run(self, extra_init=None):
@@ -102,6 +191,8 @@ class AbsInt:
                 v = self._eval_rvalue(st["rv"], store) if l not in self.untracked else None
                 if v is None and self.agg_value is not None and "agg" in st["rv"]:
                     v = self.agg_value(bb, st["rv"], store)        # client-defined abstract value of an aggregate (travels with moves)
+                if v is None and self.track_values and "agg" in st["rv"]:
+                    v = self._struct_value(bb, st["rv"], store)
                 if self.on_assign is not None:
                     extra = self.on_assign(bb, i, st, store, flags, counters, extra)
                 if v is None:
@@ -122,7 +213,11 @@ class AbsInt:
                 extra = self.on_call(bb, t, store, flags, counters, extra)
             d = t["dest"]
             if not d["p"]:
-                store.pop(d["l"], None)
+                cv = self._call_value(t, store) if self.track_values else None
+                if cv is None:
+                    store.pop(d["l"], None)
+                else:
+                    store[d["l"]] = cv
         elif t["k"] == "yield":
             d = t["resume_arg"]
             if not d["p"]:
@@ -170,6 +265,8 @@ class AbsInt:
                 v = self._eval_rvalue(st["rv"], store) if l not in self.untracked else None
                 if v is None and self.agg_value is not None and "agg" in st["rv"]:
                     v = self.agg_value(bb, st["rv"], store)
+                if v is None and self.track_values and "agg" in st["rv"]:
+                    v = self._struct_value(bb, st["rv"], store)
                 if v is None:
                     store.pop(l, None)
                 else:
